@@ -55,19 +55,10 @@ fn c05_decode_total() {
     std::mem::forget(reader);
 }
 
-// @props C05
-// @fns InstructionReader::next (Jump, JumpBack, JumpIfTrue, JumpIfFalse, JumpIfNull arms), get_u16
-// @bound all 16-bit offsets and registers; little-endian operand order as the compiler's placeholder patching writes it
-#[kani::proof]
-#[kani::unwind(6)]
-#[kani::stub(std::fmt::format, stub_format)]
-#[kani::stub(std::hash::RandomState::new, stub_random_state)]
-fn c05_decode_jumps() {
+fn decode_jump(which: u8) {
     let lo: u8 = kani::any();
     let hi: u8 = kani::any();
     let reg: u8 = kani::any();
-    let which: u8 = kani::any();
-    kani::assume(which < 5);
     let want = u16::from_le_bytes([lo, hi]);
     let bytes = match which {
         0 => vec![Op::Jump as u8, lo, hi],
@@ -92,6 +83,21 @@ fn c05_decode_jumps() {
     kani::cover!(want == 65535, "offset 65535");
     std::mem::forget(instruction);
     std::mem::forget(reader);
+}
+
+// @props C05
+// @fns InstructionReader::next (Jump, JumpBack, JumpIfTrue, JumpIfFalse, JumpIfNull arms), get_u16
+// @bound all 16-bit offsets and registers, each of the five jump opcodes (concrete opcode per block so that the decoder's dispatch is pruned); little-endian operand order as the compiler's placeholder patching writes it
+#[kani::proof]
+#[kani::unwind(6)]
+#[kani::stub(std::fmt::format, stub_format)]
+#[kani::stub(std::hash::RandomState::new, stub_random_state)]
+fn c05_decode_jumps() {
+    decode_jump(0);
+    decode_jump(1);
+    decode_jump(2);
+    decode_jump(3);
+    decode_jump(4);
 }
 
 // @props C05
